@@ -4,6 +4,16 @@ that the manifest stays valid and consistent while checks are added)."""
 import json, sys
 
 CHECKS = {
+ "C01": ("exploration",
+         "runtime snapshot-diff monitor (incl. ctime/inode/content hash) around Unpack in a chroot arena; exhaustive short entry sequences + PRNG + reader faults at every offset",
+         "Each hostile archive is unpacked by the real Unpack inside a chroot whose every path outside dst is snapshotted before and after the call (type, mode, owner, size, nlink, inode, mtime, ctime, link target, content hash); any difference, on success or error, is a violation. Sequences: all singles x 4 arenas x 9 allow-lists, all pairs (quick) / triples (thorough) of a 46-entry alphabet covering every name/target shape x type, PRNG sequences, link-focused sequences, and streams with the reader failing or ending at every byte offset.",
+         "Root inside a chroot on tmpfs; atime ignored; pre-populated dst has no symlinks.",
+         "DESIGN.md §5 C01"),
+ "C04": ("exploration",
+         "runtime physical symlink resolver over dst after Unpack in a chroot arena; refusal clause for absolute / escaping link entries",
+         "Same workload as C01. After each Unpack every symlink under dst is resolved component-wise with Lstat/Readlink inside the chroot and must end inside the real path of dst unless allow-listed; an archive with an absolute or escaping link entry (judged at the place the link is created) must not unpack successfully. One recorded finding (dotdot-after-symlink-component) is matched by a narrow witness classification.",
+         "Links resolving nowhere are not escapes; with an allow-list only the physical resolver judges.",
+         "DESIGN.md §5 C04"),
  "C06": ("exploration",
          "runtime round-trip oracle (print -> kind parser -> == -> print) over grammar/mutated/corpus inputs and the API derivation closure, plus print-bucket equality check",
          "Every value accepted by ParseSource/ParseFinalSource/ParseRemotePackage/ParseRegistryPackage from grammar-directed, mutated and corpus strings, and every value derived from those through Package/SourceAddr/Versioned/Unversioned/FinalSourceAddr/ResolveRelative*/MakeRemoteSource to depth 2, is printed, re-parsed and compared (type, ==, second print); values are bucketed by printed form and a bucket must be one ==-class. Held = held on every value observed (counts in the evidence).",
